@@ -236,7 +236,9 @@ def seqStrings (p : SeqPath) (structHelpers : List Nat) (st : SeqState) : List S
 
 def handleSeq (body opts : String) : String :=
   match sequenceOpt ((body.splitOn "|").map parseItem), parseSeqPath opts with
-  | some items, some p =>
+  | some items0, some p =>
+    -- a later declaration of a function template whose parameter types mention a template parameter is one more overload
+    let items := elaborate items0
     let structHelpers := (body.splitOn "|").filterMap fun s =>
       match s.splitOn "~" with | ["s", j, _, _] => j.toNat? | _ => none
     let out := seqStrings p structHelpers (SeqState.init p items) items
